@@ -29,11 +29,15 @@ func zzTx(tag string) *types.Transaction {
 	return out
 }
 
-// zzEntry: a pool entry as the worker builds it (txnpool_worker.go handleRsp/putTxPool): exactly one
-// stateless and one stateful result, in the order the validators answered, with symbolic heights.
+// zzEntry: a pool entry as the worker builds it (txnpool_worker.go handleRsp/putTxPool adds an entry only
+// when flag == VERIFY_MASK): exactly one stateless and one stateful result, in the order the validators
+// answered (symbolic when the harness parameter AO is 1, stateless first otherwise), symbolic heights.
 func zzEntry() *TXEntry {
-	t0 := vt.VerifyType(zzsym.U8("attr0.type"))
-	zzsym.Assume(t0 <= vt.Stateful)
+	t0 := vt.Stateless
+	if zzsym.Param("AO") == 1 {
+		t0 = vt.VerifyType(zzsym.U8("attr0.type"))
+		zzsym.Assume(t0 <= vt.Stateful)
+	}
 	t1 := vt.Stateful - t0
 	return &TXEntry{Tx: zzTx("nonce"), Attrs: []*TXAttr{
 		{Height: zzsym.U32("attr0.height"), Type: t0, ErrCode: errors.ErrCode(zzsym.I32("attr0.err"))},
@@ -115,12 +119,6 @@ func zzSync(tp *TXPool, m *zzModel) {
 			zzsym.Assert(m.ents[j].Tx.Hash() != e.Tx.Hash(), "the pool never holds two transactions with the same hash")
 		}
 	}
-	n := 0
-	for k, e := range tp.txList {
-		zzsym.Assert(e.Tx.Hash() == k, "entries are keyed by their transaction's hash")
-		n++
-	}
-	zzsym.Assert(n == len(m.ents), "no entries beyond the model's")
 }
 
 func zzOpAdd(tp *TXPool, m *zzModel) {
@@ -264,6 +262,51 @@ func zzOpRemain(tp *TXPool, m *zzModel) {
 	zzsym.Cover("remain")
 }
 
+// zzFilled: an arbitrary pool state of up to K entries (hashes possibly equal: the duplicate is refused)
+func zzFilled() (*TXPool, *zzModel) {
+	tp := &TXPool{}
+	tp.Init()
+	zzUnlocked(tp)
+	m := &zzModel{}
+	n := zzsym.Choose("fill", zzsym.Param("K")+1)
+	for k := 0; k < n; k++ {
+		zzOpAdd(tp, m)
+	}
+	zzSync(tp, m)
+	return tp, m
+}
+
+// Every pool state of <= K entries, one GetTxPool with symbolic byCount / height / MaxTxInBlock; every Go map
+// iteration order is explored (spec all_map_orders).
+func ZZ_C37_GetTxPool() {
+	tp, m := zzFilled()
+	zzOpGet(tp, m)
+	zzSync(tp, m)
+	zzsym.Cover("gettxpool-done")
+}
+
+// Every pool state of <= K entries, one GetUnverifiedTxs for a block of 1..N transactions.
+func ZZ_C37_GetUnverified() {
+	tp, m := zzFilled()
+	zzOpUnverified(tp, m, 1+zzsym.Choose("nblk", zzsym.Param("N")))
+	zzSync(tp, m)
+	zzsym.Cover("unverified-done")
+}
+
+// Every pool state of <= K entries: a committed block of 0..N transactions is cleaned (exactly those leave),
+// then one DelTxList, then Remain empties the pool.
+func ZZ_C37_CleanDelRemain() {
+	tp, m := zzFilled()
+	zzOpClean(tp, m, zzsym.Choose("nclean", zzsym.Param("N")+1))
+	zzSync(tp, m)
+	zzOpDel(tp, m)
+	zzSync(tp, m)
+	zzOpRemain(tp, m)
+	zzSync(tp, m)
+	zzsym.Assert(tp.GetTransactionCount() == 0, "the pool is empty after Remain")
+	zzsym.Cover("clean-done")
+}
+
 // Sequential specification: arbitrary operation sequences against the set model; the pool lock is free
 // after every method (lock discipline), and the pool equals the model after every step.
 func ZZ_C37_OpsAgainstModel() {
@@ -279,40 +322,17 @@ func ZZ_C37_OpsAgainstModel() {
 		case 1:
 			zzOpDel(tp, m)
 		case 2:
-			zzOpClean(tp, m, 1+zzsym.Choose("nclean", 2))
+			zzOpClean(tp, m, 1)
 		case 3:
 			zzOpGet(tp, m)
 		case 4:
-			zzOpUnverified(tp, m, 1+zzsym.Choose("nblk", 2))
+			zzOpUnverified(tp, m, 1)
 		case 5:
 			zzOpRemain(tp, m)
 		}
 		zzSync(tp, m)
 	}
 	zzsym.Cover("ops-done")
-}
-
-// A filled pool (K adds, hashes possibly equal) followed by each consensus-facing operation; every Go map
-// iteration order is explored for GetTxPool / Remain (spec all_map_orders).
-func ZZ_C37_FilledPool() {
-	K := zzsym.Param("K")
-	tp := &TXPool{}
-	tp.Init()
-	m := &zzModel{}
-	for k := 0; k < K; k++ {
-		zzOpAdd(tp, m)
-	}
-	zzSync(tp, m)
-	zzOpGet(tp, m)
-	zzSync(tp, m)
-	zzOpUnverified(tp, m, 2)
-	zzSync(tp, m)
-	zzOpClean(tp, m, 2)
-	zzSync(tp, m)
-	zzOpGet(tp, m)
-	zzOpRemain(tp, m)
-	zzSync(tp, m)
-	zzsym.Cover("filled-done")
 }
 
 func ZZ_C37_OpsAgainstModel_witness() {
@@ -324,7 +344,7 @@ func ZZ_C37_OpsAgainstModel_witness() {
 	zzsym.Assert(tp.AddTxList(e), "witness: the second add can be a duplicate")
 }
 
-func ZZ_C37_FilledPool_witness() {
+func ZZ_C37_GetTxPool_witness() {
 	tp := &TXPool{}
 	tp.Init()
 	m := &zzModel{}
@@ -335,4 +355,20 @@ func ZZ_C37_FilledPool_witness() {
 	zzsym.Assert(len(got) == len(m.ents), "witness: stale entries and the count limit can withhold transactions")
 }
 
-// Lock discipline witness: a second Lock without Unlock must be reported by the engine's mutex model.
+func ZZ_C37_GetUnverified_witness() {
+	tp := &TXPool{}
+	tp.Init()
+	m := &zzModel{}
+	zzOpAdd(tp, m)
+	res := tp.GetUnverifiedTxs([]*types.Transaction{zzTx("blk")}, zzsym.U32("height"))
+	zzsym.Assert(len(res.VerifiedTxs) == 1, "witness: the block transaction can be unknown or stale")
+}
+
+func ZZ_C37_CleanDelRemain_witness() {
+	tp := &TXPool{}
+	tp.Init()
+	m := &zzModel{}
+	zzOpAdd(tp, m)
+	tp.CleanTransactionList([]*types.Transaction{zzTx("clean")})
+	zzsym.Assert(tp.GetTransactionCount() == 1, "witness: the cleaned transaction can be the pooled one")
+}
